@@ -24,7 +24,7 @@
                                     one-expression `have`s in the sequence-line case (`hkeep`: the translation of
                                     `line[:-line_end_bytes] if line[-1] == 10 else line`, `hr0`: of `if not residues_per_line`),
                                     the shape `if _ then _ else .ok (some regs)` in `ite_closeReg`, and the order of the loop
-                                    variables: of the 13 of the main loop in `toSrc` / `toSrc_none` / `toSrc_some`, of the
+                                    variables: of the 13 of the main loop in `SrcState` / `SrcState.pack`, of the
                                     two inner loops in `absReg` / `absRow` (nowhere else; the joins after an `if` are
                                     projected by `simp`).
 -/
@@ -80,41 +80,48 @@ theorem forIn_abs {α σ τ ρ : Type} (abs : τ → σ) (step : τ → α → R
 
 /-! ### the two views of the indexer's state -/
 
-/-- the source's 13 loop variables, in the translator's canonical order (sorted by Python variable name, the synthetic
-    `fh.tell()` last): `(asm.scaffolds, file_offset, idx_dict, line_end_bytes, name, nextOid, region_end, region_start,
-    residues_per_line, seq_buffer, seq_length, seq_regions, fh.tell())` -/
-abbrev SrcState := List Scaffold × Option Int × List (Str × FastaInfo) × Option Int × Option Str × Nat × Option Int × Option Int ×
-  Option Int × PyRt.BytesIO × Option Int × Option (List (Int × Int)) × Int
+/-- the source's 13 loop variables, in the translator's canonical order (sorted by the Lean text of their type, then by
+    Python variable name, the synthetic `fh.tell()` last): `(idx_dict, asm.scaffolds, seq_regions, file_offset,
+    line_end_bytes, region_end, region_start, residues_per_line, seq_length, name, nextOid, seq_buffer, fh.tell())` -/
+abbrev SrcState := List (Str × FastaInfo) × List Scaffold × Option (List (Int × Int)) × Option Int × Option Int × Option Int ×
+  Option Int × Option Int × Option Int × Option Str × Nat × PyRt.BytesIO × Int
+
+/-- THE packing function of the main loop state: the 13 variables by name (the only place that spells out their order) -/
+def SrcState.pack (scaffolds : List Scaffold) (fileOffset : Option Int) (idx : List (Str × FastaInfo))
+    (lineEndBytes : Option Int) (name : Option Str) (nextOid : Nat) (regionEnd regionStart rpl : Option Int)
+    (buf : PyRt.BytesIO) (seqLength : Option Int) (seqRegions : Option (List (Int × Int))) (pos : Int) : SrcState :=
+  (idx, scaffolds, seqRegions, fileOffset, lineEndBytes, regionEnd, regionStart, rpl, seqLength, name, nextOid, buf, pos)
 
 /-- the source's variables, from the model state: before the first header everything the Python initialises with `None` is
     `None` (except `residues_per_line`, which a header-less unterminated line sets); after it everything is set -/
 def toSrc (st : IdxState) : SrcState :=
   match st.name with
-  | some n => (st.scaffolds, some st.fileOffset, st.idx, some st.lineEndBytes, some n, st.nextOid, st.regionEnd,
-      some st.regionStart, st.rpl, { data := st.buffer, pos := st.buffer.length }, some st.seqLength, some st.seqRegions, st.pos)
-  | none => (st.scaffolds, none, st.idx, none, none, st.nextOid, none, none, st.rpl,
-      { data := st.buffer, pos := st.buffer.length }, none, none, st.pos)
+  | some n => SrcState.pack st.scaffolds (some st.fileOffset) st.idx (some st.lineEndBytes) (some n) st.nextOid st.regionEnd
+      (some st.regionStart) st.rpl { data := st.buffer, pos := st.buffer.length } (some st.seqLength) (some st.seqRegions) st.pos
+  | none => SrcState.pack st.scaffolds none st.idx none none st.nextOid none none st.rpl
+      { data := st.buffer, pos := st.buffer.length } none none st.pos
 
-/-- `toSrc` before the first header (the only other place that spells out the order of the 13 variables) -/
+/-- `toSrc` before the first header -/
 theorem toSrc_none {st : IdxState} (hn : st.name = none) :
-    toSrc st = (st.scaffolds, none, st.idx, none, none, st.nextOid, none, none, st.rpl,
-      { data := st.buffer, pos := st.buffer.length }, none, none, st.pos) := by
+    toSrc st = SrcState.pack st.scaffolds none st.idx none none st.nextOid none none st.rpl
+      { data := st.buffer, pos := st.buffer.length } none none st.pos := by
   simp only [toSrc, hn]
 
 /-- `toSrc` inside a record -/
 theorem toSrc_some {st : IdxState} {n : Str} {r : Int} (hn : st.name = some n) (hr : st.rpl = some r) :
-    toSrc st = (st.scaffolds, some st.fileOffset, st.idx, some st.lineEndBytes, some n, st.nextOid, st.regionEnd,
-      some st.regionStart, some r, { data := st.buffer, pos := st.buffer.length }, some st.seqLength, some st.seqRegions,
-      st.pos) := by
+    toSrc st = SrcState.pack st.scaffolds (some st.fileOffset) st.idx (some st.lineEndBytes) (some n) st.nextOid st.regionEnd
+      (some st.regionStart) (some r) { data := st.buffer, pos := st.buffer.length } (some st.seqLength) (some st.seqRegions)
+      st.pos := by
   simp only [toSrc, hn, hr]
 
-/-- the region variables of `process_seq_buffer`, in the order the translated loop carries them -/
-def absReg (t : Int × Option Int × List (Int × Int)) : Option Int × Option Int × Option (List (Int × Int)) :=
-  (t.2.1, some t.1, some t.2.2)
+/-- the region variables of `process_seq_buffer`: `mergeRun` keeps them as `(region_start, region_end, seq_regions)`, the
+    translated loop carries them as `(seq_regions, region_end, region_start)` -/
+def absReg (t : Int × Option Int × List (Int × Int)) : Option (List (Int × Int)) × Option Int × Option Int :=
+  (some t.2.2, t.2.1, some t.1)
 
 /-- the variables of `store_info`'s row loop: `rowStep` keeps them as `(scffld, nextOid, prev)`, the translated loop carries
-    them in the canonical order `(nextOid, prev, scffld)` -/
-def absRow (t : Scaffold × Nat × (Int × Int)) : Nat × (Int × Int) × Scaffold := (t.2.1, t.2.2, t.1)
+    them in the canonical order `(prev, nextOid, scffld)` -/
+def absRow (t : Scaffold × Nat × (Int × Int)) : (Int × Int) × Nat × Scaffold := (t.2.2, t.2.1, t.1)
 
 /-! ### small run-time facts -/
 
@@ -770,7 +777,7 @@ macro "header_tail" tl:term : tactic => `(tactic| (
           ok_bind, map_error, Bool.not_false, Bool.not_true]
       | ok b2 =>
         simp only [headerPart, List.drop_succ_cons, List.drop_zero, htok, hstr, hne, hb2, Bool.false_eq_true, if_false, error_bind,
-          ok_bind, map_ok, Bool.not_false, Bool.not_true, toSrc, stored, Option.getD_some, ite_scaffold]
+          ok_bind, map_ok, Bool.not_false, Bool.not_true, toSrc, SrcState.pack, stored, Option.getD_some, ite_scaffold]
         by_cases h13 : b2 = 13
         · subst h13; all_goals rfl
         · have : ¬ Int.ofNat b2 = 13 := by simp; omega
@@ -840,7 +847,7 @@ theorem index_fasta_file_imp_eq (bs : Int) (lines : List Bytes) (h0 : preHeaderO
         cases hn : st.name with
         | none =>
           have hsrc := toSrc_none hn
-          rw [hsrc]
+          rw [hsrc, SrcState.pack]
           simp only [pyGet_zero_cons, map_ok, ok_bind, h62, if_true, Option.isSome_none, Bool.false_eq_true, if_false,
             slice_one_none_cons, pyGet_split_zero]
           header_tail tl
@@ -851,7 +858,7 @@ theorem index_fasta_file_imp_eq (bs : Int) (lines : List Bytes) (h0 : preHeaderO
             | nil => exact absurd rfl (hI.nameNe _ hn)
             | cons _ _ => rfl
           have hsrc := toSrc_some hn hr
-          rw [hsrc, storeInfo_eq]
+          rw [hsrc, SrcState.pack, storeInfo_eq]
           simp only [pyGet_zero_cons, map_ok, ok_bind, h62, if_true, Option.isSome_some, slice_one_none_cons,
             pyGet_split_zero, hne, Bool.not_false, hr, Option.getD_some]
           -- process_seq_buffer()
@@ -890,7 +897,7 @@ theorem index_fasta_file_imp_eq (bs : Int) (lines : List Bytes) (h0 : preHeaderO
         | none =>
           obtain ⟨hA, hB⟩ := hsafe hn
           have hsrc := toSrc_none hn
-          rw [hsrc]
+          rw [hsrc, SrcState.pack]
           by_cases hl : (b0 :: tl).getLast? = some 10
           · have hx : x = 10 := by rw [hx1] at hl; simpa using hl
             subst hx
@@ -915,7 +922,7 @@ theorem index_fasta_file_imp_eq (bs : Int) (lines : List Bytes) (h0 : preHeaderO
               simp only [hov, hov', decide_true, if_true, error_bind, map_error]
             · have hov' : ¬ ((st.buffer ++ (b0 :: tl)).length : Int) > bs := hov
               simp only [hov, hov', decide_false, Bool.false_eq_true, if_false, ok_bind, map_ok]
-              simp only [toSrc, addKeep, hn]
+              simp only [toSrc, SrcState.pack, addKeep, hn]
               cases st.rpl with
               | none => rfl
               | some r => by_cases h : r = 0 <;> simp [h]
@@ -923,7 +930,7 @@ theorem index_fasta_file_imp_eq (bs : Int) (lines : List Bytes) (h0 : preHeaderO
           obtain ⟨r, hr⟩ := hI.rplSome n hn
           have hleb := hI.lebPos n hn
           have hsrc := toSrc_some hn hr
-          rw [hsrc, indexLine_residue bs st b0 tl r n hb hr hn]
+          rw [hsrc, SrcState.pack, indexLine_residue bs st b0 tl r n hb hr hn]
           have hkeep : (if decide (Int.ofNat x = 10) = true
                 then (Except.ok (slice (b0 :: tl) none (some (-st.lineEndBytes))) : R Bytes) else Except.ok (b0 :: tl))
               = .ok (keepOf st.lineEndBytes (b0 :: tl)) := by
@@ -945,11 +952,11 @@ theorem index_fasta_file_imp_eq (bs : Int) (lines : List Bytes) (h0 : preHeaderO
             case hs => rfl
             case hbody => proc_body st.seqLength
             simp only [ite_ok_bind, ok_bind, hr0, hov, hov', decide_true, if_true, absReg, seek_truncate]
-            simp only [toSrc, processSeqBuffer_eq, addKeep, hn]
+            simp only [toSrc, SrcState.pack, processSeqBuffer_eq, addKeep, hn]
             rfl
           · have hov' : ¬ ((st.buffer ++ keepOf st.lineEndBytes (b0 :: tl)).length : Int) > bs := hov
             simp only [ite_ok_bind, ok_bind, hr0, hov, hov', decide_false, Bool.false_eq_true, if_false]
-            simp only [toSrc, addKeep, hn]
+            simp only [toSrc, SrcState.pack, addKeep, hn]
             rfl
   -- after the loop
   rw [indexFasta_eq]
@@ -961,7 +968,7 @@ theorem index_fasta_file_imp_eq (bs : Int) (lines : List Bytes) (h0 : preHeaderO
     cases hn : st.name with
     | none =>
       have hsrc := toSrc_none hn
-      rw [hsrc]
+      rw [hsrc, SrcState.pack]
       simp only [Option.isSome_none, Bool.false_eq_true, if_false, ok_bind]
       cases st.idx.isEmpty <;> rfl
     | some n =>
@@ -971,7 +978,7 @@ theorem index_fasta_file_imp_eq (bs : Int) (lines : List Bytes) (h0 : preHeaderO
         | nil => exact absurd rfl (hI.nameNe _ hn)
         | cons _ _ => rfl
       have hsrc := toSrc_some hn hr
-      rw [hsrc, storeInfo_eq]
+      rw [hsrc, SrcState.pack, storeInfo_eq]
       simp only [hne, Bool.not_false, if_true, Option.isSome_some, hn, Option.getD_some]
       rw [forIn_abs_pure absReg (mergeRun st.seqLength) _ _ (st.regionStart, st.regionEnd, st.seqRegions) _ ?hs ?hbody]
       case hs => rfl
